@@ -166,6 +166,7 @@ structure ExtOK (c : Ctx W HS) (ext : List String) : Prop where
   user : ∀ x ∈ ext, isUser x = true
   scI : ∀ x ∈ ext, c.scI x = true
   scR : ∀ x ∈ ext, c.scR x = shouldInstr c.cfg x []
+  nopin : ∀ x, c.pin x = none
 
 /-- the relation while the globals are being fetched: `S` are the ones done -/
 structure Rel0 (c : Ctx W HS) (ext : List String) (S : String → Prop) (st' st : St W HS) : Prop where
@@ -177,7 +178,8 @@ structure Rel0 (c : Ctx W HS) (ext : List String) (S : String → Prop) (st' st 
 
 theorem Rel0.toRel {c : Ctx W HS} {ext : List String} {S : String → Prop} {st' st : St W HS}
     (ok : ExtOK c ext) (h : Rel0 c ext S st' st) (hS : ∀ x ∈ ext, S x) : Rel c st' st := by
-  refine ⟨h.obs.w, h.obs.hs, h.obs.inp, h.obs.out, h.obs.cur, h.obs.closed, ?_⟩
+  refine ⟨h.obs.w, h.obs.hs, h.obs.inp, h.obs.out, h.obs.cur, h.obs.closed, ?_,
+    fun x v hp => by rw [ok.nopin x] at hp; exact absurd hp (by simp)⟩
   intro x hx
   by_cases hm : x ∈ ext
   · unfold lookupV
@@ -469,7 +471,7 @@ theorem inner_core (c : Ctx W HS) (lib : LibSpec c) (ext : List String) (ok : Ex
   have hrel : ∀ s' s, Rel0 c ext (fun y => False ∨ y ∈ ext) s' s → Rel c s' s :=
     fun s' s h => h.toRel ok fun x hx => Or.inr hx
   intro st' st h
-  exact H3.seq (H3.of_relX (sim_genParams c params hp)) (H3.of_relX (simB c lib body1 hcore hsc 1)) st' st (hrel _ _ h)
+  exact H3.seq (H3.of_relX (sim_genParams c params hp)) (H3.of_relX (simB c lib (fun k => ok.nopin _) body1 hcore hsc 1)) st' st (hrel _ _ h)
 
 theorem exit_event (c : Ctx W HS) :
     H3 Obs Obs (execB c.envI c.fuel
@@ -600,7 +602,7 @@ theorem instrument_refines (host : Host W HS) (cfg : Cfg) (f : FunDef) (fuel : N
     intro x hx
     exact ⟨scopeInstr_of_assigned f x hx, scopeRef_of_assigned cfg f x hx⟩
   have ok : ExtOK c (sortNames (collect f).external) := by
-    refine ⟨?_, ?_, ?_⟩
+    refine ⟨?_, ?_, ?_, fun _ => rfl⟩
     · intro x hx; exact heu x ((mem_sortNames x _).1 hx)
     · intro x hx
       have := (mem_sortNames x _).1 hx
@@ -679,7 +681,7 @@ theorem libSpec_of_host (host : Host W HS) (hh : HostSpec host) (cfg : Cfg) (f :
   simp only [coreF, Bool.and_eq_true, List.all_eq_true] at hf
   obtain ⟨⟨⟨⟨⟨_, hau⟩, heu⟩, _⟩, _⟩, _⟩ := hf
   refine ⟨?_, ?_, hh.absent, hh.key, hh.suspend, hh.resume, hh.baseExc, hh.nameErr, hh.frame, hh.globals,
-    hh.truthyBool⟩
+    hh.truthyBool, fun n => by show scopeInstr f (gensym n) = true; simp [scopeInstr, isTemp_gensym]⟩
   · show scopeInstr f "#error" = true
     simp [scopeInstr]
   · intro x hx
